@@ -254,7 +254,7 @@ def _enum_shard(harness_path, func, domains, fixed, max_s):
     return {"nontrivial": True, "violations": viol, "sample": call}
   seen, counts = set(), {}
   res = enumz3.allsat(body, max_s=max_s)
-  return {"func": func, "runs": res.runs, "exhaustive": res.exhaustive, "outputs": res.outputs, "errors": res.errors,
+  return {"func": func, "runs": res.runs, "nontrivial": res.nontrivial, "exhaustive": res.exhaustive, "outputs": res.outputs, "errors": res.errors,
           "samples": res.samples[:2], "solver_s": res.solver_s, "queries": res.queries, "violating_runs": counts}
 
 
@@ -277,6 +277,7 @@ def run_enum(pid, harness_path, specs, ev):
     row = rows.setdefault(r["func"], {"obligation": r["func"], "mode": "enumerated (z3 AllSAT, native calls)", "runs": 0, "exhaustive": True,
                                       "samples": r["samples"]})
     row["runs"] += r["runs"]
+    row["nontrivial_runs"] = row.get("nontrivial_runs", 0) + r.get("nontrivial", 0)
     row["exhaustive"] = row["exhaustive"] and r["exhaustive"]
     for k_, n_ in r.get("violating_runs", {}).items():
       row.setdefault("violating_runs", {})[k_] = row.get("violating_runs", {}).get(k_, 0) + n_
